@@ -475,6 +475,10 @@ func runStreams(cfg *Config) *Result {
 		if err == nil {
 			err = json.Unmarshal(b, &rp)
 		}
+		if err == nil && strings.HasPrefix(rp.Case, "endless ") {
+			stEndlessProbe(res)
+			return res
+		}
 		if err == nil {
 			err = json.Unmarshal([]byte(rp.Case), &c)
 		}
@@ -611,6 +615,9 @@ func runStreams(cfg *Config) *Result {
 				res.Notes = append(res.Notes, "timing verdict not reproduced in isolation (not counted): "+truncate(timing[i].p.Msg, 300)+" case "+truncate(timing[i].c.text(), 400))
 			}
 		}
+	}
+	if cfg.Replay == "" {
+		stEndlessProbe(res)
 	}
 	return res
 }
